@@ -164,3 +164,96 @@ Qed.
 
 Theorem cov_form1_zero z w : cov_form1 z 0 w == 0.
 Proof. unfold cov_form1. ring. Qed.
+
+(* ==================================================================================== *)
+(** * the covariance system is solvable whenever the precision form is defined: [w = r - Z b] *)
+
+Lemma Zt_sub (g : Q * Q -> Q) (b : Q * Q) : forall (Z : list (Q * Q)) (r : list Q), length Z = length r ->
+  dotQ (map g Z) (np_vsub r (np_matvec_n2 Z b))
+  == dotQ (map g Z) r - (sumQ (map (fun z => g z * fst z) Z) * fst b + sumQ (map (fun z => g z * snd z) Z) * snd b).
+Proof.
+  unfold np_vsub, np_matvec_n2. induction Z as [|z Z IH]; intros r L.
+  - simpl. ring.
+  - destruct r as [|r0 r]; [discriminate|]. simpl in L. simpl. rewrite IH by lia. ring.
+Qed.
+
+Lemma recompose (v v' : Q * Q) : fst v == fst v' -> snd v == snd v' -> forall (Z : list (Q * Q)) (r : list Q),
+  length Z = length r ->
+  Forall2 Qeq (map (fun p => fst p + snd p) (combine (np_matvec_n2 Z v) (np_vsub r (np_matvec_n2 Z v')))) r.
+Proof.
+  intros H1 H2. unfold np_vsub, np_matvec_n2. induction Z as [|z Z IH]; intros [|r0 r] L; simpl in *; try discriminate; constructor.
+  - rewrite H1, H2. ring.
+  - apply IH. lia.
+Qed.
+
+Lemma alg3a (S11 S12 S21 S22 e11 e12 e21 e22 d11 d12 b1 b2 P1 P2 : Q) :
+  (S11 + e11) * b1 + (S12 + e12) * b2 == P1 -> (S21 + e21) * b1 + (S22 + e22) * b2 == P2 ->
+  d11 * e11 + d12 * e21 == 1 -> d11 * e12 + d12 * e22 == 0 ->
+  d11 * (P1 - (S11 * b1 + S12 * b2)) + d12 * (P2 - (S21 * b1 + S22 * b2)) == b1.
+Proof.
+  intros N1 N2 B1 B2. rewrite <- N1, <- N2.
+  setoid_replace (d11 * ((S11 + e11) * b1 + (S12 + e12) * b2 - (S11 * b1 + S12 * b2)) + d12 * ((S21 + e21) * b1 + (S22 + e22) * b2 - (S21 * b1 + S22 * b2)))
+    with ((d11 * e11 + d12 * e21) * b1 + (d11 * e12 + d12 * e22) * b2) by ring.
+  rewrite B1, B2. ring.
+Qed.
+
+Lemma alg3b (S11 S12 S21 S22 e11 e12 e21 e22 d21 d22 b1 b2 P1 P2 : Q) :
+  (S11 + e11) * b1 + (S12 + e12) * b2 == P1 -> (S21 + e21) * b1 + (S22 + e22) * b2 == P2 ->
+  d21 * e11 + d22 * e21 == 0 -> d21 * e12 + d22 * e22 == 1 ->
+  d21 * (P1 - (S11 * b1 + S12 * b2)) + d22 * (P2 - (S21 * b1 + S22 * b2)) == b2.
+Proof.
+  intros N1 N2 B1 B2. rewrite <- N1, <- N2.
+  setoid_replace (d21 * ((S11 + e11) * b1 + (S12 + e12) * b2 - (S11 * b1 + S12 * b2)) + d22 * ((S21 + e21) * b1 + (S22 + e22) * b2 - (S21 * b1 + S22 * b2)))
+    with ((d21 * e11 + d22 * e21) * b1 + (d21 * e12 + d22 * e22) * b2) by ring.
+  rewrite B1, B2. ring.
+Qed.
+
+Theorem cov_system2_solvable Z r D Dinv b :
+  inv2 D = Ok Dinv -> blup2 Z r Dinv = Ok b -> cov_system2 Z D (np_vsub r (np_matvec_n2 Z b)) r.
+Proof.
+  intros HD Hb.
+  assert (L : length Z = length r).
+  { unfold blup2 in Hb. destruct (length Z =? length r)%nat eqn:E; [now apply Nat.eqb_eq|discriminate]. }
+  pose proof (blup2_normal_eq _ _ _ _ Hb) as [N1 N2].
+  destruct (inv2_two_sided _ _ HD) as [_ [B1 [B2 [B3 B4]]]].
+  split; [|split].
+  - unfold np_vsub, np_matvec_n2. rewrite map_length, combine_length, map_length. lia.
+  - now symmetry.
+  - destruct D as [d11 d12 d21 d22], Dinv as [e11 e12 e21 e22]. apply recompose; [| |exact L].
+    + unfold mulv, Ztr. cbn [m11 m12 m21 m22 fst snd]. rewrite !Zt_sub by exact L.
+      unfold mat_apply_eq, madd, ZtZ, Ztr, mmul2, mid2 in *. cbn [m11 m12 m21 m22 fst snd] in *.
+      eapply alg3a; eassumption.
+    + unfold mulv, Ztr. cbn [m11 m12 m21 m22 fst snd]. rewrite !Zt_sub by exact L.
+      unfold mat_apply_eq, madd, ZtZ, Ztr, mmul2, mid2 in *. cbn [m11 m12 m21 m22 fst snd] in *.
+      eapply alg3b; eassumption.
+Qed.
+
+(** one random effect *)
+Lemma z_sub (b : Q) : forall (z r : list Q), length z = length r ->
+  dotQ z (map (fun p => fst p - snd p) (combine r (map (fun x => x * b) z))) == dotQ z r - dotQ z z * b.
+Proof.
+  induction z as [|x z IH]; intros r L.
+  - simpl. ring.
+  - destruct r as [|r0 r]; [discriminate|]. simpl in L. simpl. rewrite IH by lia. ring.
+Qed.
+
+Lemma recompose1 (c b : Q) : c == b -> forall (z r : list Q), length z = length r ->
+  Forall2 Qeq (map (fun p => fst p + snd p)
+                 (combine (map (fun x => x * c) z) (map (fun p => fst p - snd p) (combine r (map (fun x => x * b) z))))) r.
+Proof.
+  intros E. induction z as [|x z IH]; intros [|r0 r] L; simpl in *; try discriminate; constructor.
+  - rewrite E. ring.
+  - apply IH. lia.
+Qed.
+
+Theorem cov_system1_solvable z r d b :
+  ~ d == 0 -> blup1 z r (/ d) = Ok b -> cov_system1 z d (map (fun p => fst p - snd p) (combine r (map (fun x => x * b) z))) r.
+Proof.
+  intros Hd Hb. pose proof (blup1_normal_eq _ _ _ _ Hb) as N.
+  assert (L : length z = length r).
+  { unfold blup1 in Hb. destruct (length z =? length r)%nat eqn:E; [now apply Nat.eqb_eq|discriminate]. }
+  split; [|split].
+  - rewrite map_length, combine_length, map_length. lia.
+  - now symmetry.
+  - apply recompose1; [|exact L]. rewrite (z_sub b z r L), <- N. field. exact Hd.
+Qed.
